@@ -3,9 +3,15 @@
 package k8s
 
 import (
+	"sync"
+
 	corev1 "k8s.io/api/core/v1"
 	"k8s.io/apimachinery/pkg/util/sets"
+	"k8s.io/client-go/tools/record"
+	"sigs.k8s.io/controller-runtime/pkg/client"
 
+	"github.com/AliyunContainerService/terway/pkg/storage"
+	"github.com/AliyunContainerService/terway/types"
 	"github.com/AliyunContainerService/terway/types/daemon"
 )
 
@@ -15,4 +21,20 @@ func VerifParseBandwidth(s string) (uint64, error) { return parseBandwidth(s) }
 // VerifConvertPod exposes convertPod to the verification harness.
 func VerifConvertPod(daemonMode string, enableErdma bool, kinds sets.Set[string], pod *corev1.Pod) *daemon.PodInfo {
 	return convertPod(daemonMode, enableErdma, kinds, pod)
+}
+
+// VerifNewK8S builds the daemon's Kubernetes adapter over an injected client; the pod cache
+// (pod.db on a node) is the given storage.
+func VerifNewK8S(c client.Client, daemonMode, nodeName string, podCache storage.Storage, svcCIDR *types.IPNetSet) Kubernetes {
+	return &k8s{
+		client:                  c,
+		mode:                    daemonMode,
+		nodeName:                nodeName,
+		node:                    &corev1.Node{},
+		storage:                 podCache,
+		recorder:                record.NewFakeRecorder(1024),
+		svcCIDR:                 svcCIDR,
+		statefulWorkloadKindSet: sets.New[string]("statefulset"),
+		Locker:                  &sync.RWMutex{},
+	}
 }
